@@ -2,7 +2,10 @@
 
 package ref
 
-import "fmt"
+import (
+	"fmt"
+	"sync"
+)
 
 // C07Desc is a recursive description of a node with its children (the children that are inlined
 // in the parent encoding are described down to their own fields).
@@ -13,6 +16,10 @@ type C07Desc struct {
 	Hashed   bool   // value stored by hash (state version 1, value longer than 32 bytes)
 	RawValue []byte // the storage value itself
 	Kids     [16]*C07Desc
+
+	once  sync.Once
+	enc   []byte
+	marks []int
 }
 
 // Node flattens d into the fields that appear in its encoding.
@@ -31,7 +38,11 @@ func (d *C07Desc) Node() C07Node {
 }
 
 // Encode is the reference encoding of d and its structural offsets.
-func (d *C07Desc) Encode() ([]byte, []int) { return C07Encode(d.Node()) }
+// (memoised; the returned slices must not be modified)
+func (d *C07Desc) Encode() ([]byte, []int) {
+	d.once.Do(func() { d.enc, d.marks = C07Encode(d.Node()) })
+	return d.enc, d.marks
+}
 
 // C07Named is one enumerated node shape.
 type C07Named struct {
